@@ -65,7 +65,7 @@ Section Stray2.
     stray_wf c -> stray_ok o c ->
     skipn pos s = unparse_items2 l1 ++ fws ++ stray_text c ++ g ->
     let q := pos + length (unparse_items2 l1) in
-    run s false cx (1 + 8 * length (unparse_items2 l1)) (TCollect ps o st pos)
+    run s false cx (1 + fuel_unit cx * length (unparse_items2 l1)) (TCollect ps o st pos)
     = PErr (fail_err ps (fst (absorb2 cx ps pos st l1)) q (stray_tk c) (stray_arg c)
                      (q + length fws + length (stray_text c)) fws [] (stray_what c))
            (q + length fws + length (stray_text c)).
@@ -74,7 +74,8 @@ Section Stray2.
     pose proof (skipn_shift _ _ _ _ SK) as SK1. fold q in SK1.
     pose proof (stray_step s cx false ps o (fst (absorb2 cx ps pos st l1)) q fws c g 0 SE (opts_ok_2 _ _ OK)
                   W WF SO SK1) as H.
-    refine (items_sim2_std s cx l1 ps o st pos _ 1 _ (proj1 SE) OK _ OKL SK H). discriminate.
+    refine (items_sim2_std s cx (fuel_unit cx) l1 ps o st pos _ 1 _ (fuel_unit_ge8 cx) (fuel_unit_slots cx)
+              (proj1 SE) OK _ OKL SK H). discriminate.
   Qed.
 
   (** ** ... and tolerant mode: the same error *)
@@ -83,7 +84,7 @@ Section Stray2.
     stray_wf c -> stray_ok o c ->
     skipn pos s = unparse_items2 l1 ++ fws ++ stray_text c ++ g ->
     let q := pos + length (unparse_items2 l1) in
-    run s true cx (1 + 8 * length (unparse_items2 l1)) (TCollect ps o st pos)
+    run s true cx (1 + fuel_unit cx * length (unparse_items2 l1)) (TCollect ps o st pos)
     = PErr (fail_err ps (fst (absorb2 cx ps pos st l1)) q (stray_tk c) (stray_arg c)
                      (q + length fws + length (stray_text c)) fws [] (stray_what c))
            (q + length fws + length (stray_text c)).
@@ -120,7 +121,7 @@ Proof.
   { unfold s. rewrite !app_length. reflexivity. }
   eexists. split; [|split; [|split]].
   - unfold parse_top. fold s.
-    rewrite (run_mono s false cx _ (parse_fuel s) _ _ H2 ltac:(discriminate)) by (unfold parse_fuel; lia).
+    rewrite (run_mono s false cx _ (parse_fuel s cx) _ _ H2 ltac:(discriminate)) by (pose proof (parse_fuel_ge_unit s cx (length (unparse_items2 l1)) ltac:(lia)); lia).
     cbn [parse_content]. reflexivity.
   - reflexivity.
   - reflexivity.
@@ -146,12 +147,13 @@ Proof.
   assert (LS : length s = length (unparse_items2 l) + (length tr + (length (stray_text c) + length g))).
   { unfold s. rewrite !app_length. reflexivity. }
   unfold parse_top. fold s.
-  assert (H2 : run s true cx (parse_fuel s) (TGeneral ps0 top_opts 0)
+  assert (H2 : run s true cx (parse_fuel s cx) (TGeneral ps0 top_opts 0)
                = PErr (rewrap 0 (fail_err ps0 (fst A) (0 + length (unparse_items2 l)) (stray_tk c) (stray_arg c)
                                           (0 + length (unparse_items2 l) + length tr + length (stray_text c)) tr []
                                           (stray_what c)))
                       (0 + length (unparse_items2 l) + length tr + length (stray_text c))).
-  { apply (run_mono s true cx (S (1 + 8 * length (unparse_items2 l)))); [|discriminate|unfold parse_fuel; lia].
+  { apply (run_mono s true cx (S (1 + fuel_unit cx * length (unparse_items2 l)))); [|discriminate|
+      pose proof (parse_fuel_ge_unit s cx (length (unparse_items2 l)) ltac:(lia)); lia].
     cbn [run]. fold ps0. fold A. rewrite H1. reflexivity. }
   rewrite H2. cbn [parse_content rewrap fail_err mkerr pe_at pe_past pe_nodes]. reflexivity.
 Qed.
